@@ -319,6 +319,40 @@ def _check_boundary_row(ctx, rule, rcls):
                 hit = a
                 break
         if hit is not None:
+            # ... and that frac-face value is the pseudopressure of the schedule the caller gave (entry i of it), or of the
+            # configured constant when none was given - not of a re-sized, padded or otherwise edited schedule
+            inner = hit if hit[1].endswith("m_scaled_func") else it.single_atom(nf.unkey(hit[2][0]))
+            arg = nf.unkey(inner[2][0]) if inner is not None and inner[0] == "fn" and inner[2] else None
+            aa = it.single_atom(arg) if arg is not None else None
+            given = arg == nf.sym("pressure_fracface") or arg == nf.sym("self.pressure_fracface")
+            if aa is not None and aa[0] == "fn":
+                if aa[1] == "vec" and len(aa[2]) == 2 and nf.unkey(aa[2][0]) == nf.sym("self.pressure_fracface"):
+                    given = True
+                if aa[1] == "[]" and len(aa[2]) == 2 and nf.unkey(aa[2][0]) == nf.sym("pressure_fracface"):
+                    given = True  # the schedule's own entry
+            # ... and the state at time[0] starts from the same schedule: its frac-face node is entry 0 of that schedule's
+            # pseudopressure (not the constructor's setting when a schedule is given)
+            from .reservoir import initial_row
+
+            r0 = initial_row(p)
+            if r0 is not None and arg is not None:
+                v0 = r0.at(nf.const(0))
+                mcall = nf.atom_poly(inner)
+                want0 = {nf.key(nf.fn("[]", mcall, nf.const(0)))}
+                if aa is not None and aa[0] == "fn" and aa[1] == "vec":
+                    want0.add(nf.key(nf.fn(inner[1], nf.unkey(aa[2][0]))))  # constant schedule: m(p_frac) itself
+                if arg == nf.sym("self.pressure_fracface"):
+                    want0.add(nf.key(mcall))
+                ctx.check(
+                    nf.key(v0) in want0, rule, RES + rcls + ".simulate:initial frac-face node", where,
+                    "level 0 has the frac-face pseudopressure of the first entry of the schedule that is simulated",
+                    signature="initial node " + nf.show(v0, 80), initial_node=nf.show(v0, 160),
+                )
+            ctx.check(
+                given, rule, RES + rcls + ".simulate:frac-face schedule", where,
+                "the frac-face pseudopressure of a step is m_scaled_func of the caller's schedule (or of the configured constant), unmodified",
+                signature="schedule " + (nf.show(arg, 80) if arg is not None else "?"), schedule=nf.show(arg, 160) if arg is not None else "?",
+            )
             ctx.ok(
                 rule, RES + rcls + ".simulate:frac-face row", where,
                 "b[0] == m_f * (row sum of the frac-face row): the constant profile at the frac-face value is a fixed point of the boundary row for every step size (one diffusivity on both sides)",
